@@ -11,7 +11,7 @@ LEVEL_NOTE = 'Trusted: CPython 3.12.1 asyncio; harness batch function as observa
 TECHNIQUE = 'deterministic simulation: virtual-time event loop, scripted batch-function faults, per-caller expected-outcome oracle, quiescence hang detector'
 CHUNK = 500
 DESIGN_REF = '3.4'
-PROFILES = [('c04', 40000)]
+PROFILES = [('c04', 32000), ('c04-hot', 12000)]
 
 
 def batches(tier):
